@@ -147,7 +147,7 @@ def bounded(tier, seed, repo_root):
         shape = rnd.choice([(2, 3), (3, 2), (3, 3), (2, 5), (4, 4), (3, 4)])
         vals = rnd.choice([VALUES, VALUES + [None], [0, 1, 2, 3, 5, 8], [True, False], [0.5, 1.5, 2.0, 0.0], [-3, -1, 0, 2, None]])
         tables.append([[rnd.choice(vals) for _ in range(shape[1])] for _ in range(shape[0])])
-    res = pmap(_check_table, tables, repo_root, job_timeout=60, on_timeout=timeout_failure('C15'))
+    res = pmap(_check_table, tables, repo_root, job_timeout=20, on_timeout=timeout_failure('C15'))
     fails = [f for fs in res for f in fs]
     return [{
         'name': 'C15.brute-force', 'bound': f"all tables of shape 1x1..2x2 over {small_vals!r} (exhaustive) + {n_s} seeded tables of "
